@@ -818,7 +818,9 @@ def gen_fn(d, strip_paths, mode="verify", contract_text=None, vacuity=False):
     #      `for (i, x) in A.iter().enumerate() {`  -> `for i in 0..A.len() { let x = &A[i];`
     # (A a place expression of Vec/slice type: it is borrowed for the whole loop in the original, so it cannot
     # change; same indices, same elements, same order.  vstd has no specification of Enumerate.)
-    n15 = re.compile(r"for\s+(\((\w+), (&?)(\w+)\))\s+in\s+((\w+(?:\.\w+)*)\s*\.iter\(\)\s*\.enumerate\(\))\s*\{")
+    #      `for (i, x) in A.iter().enumerate().skip(C) {` -> `for i in C..A.len() { let x = &A[i];`   (C an identifier,
+    #      evaluated once at loop entry in both forms; the original yields (i, &A[i]) for C <= i < A.len())
+    n15 = re.compile(r"for\s+(\((\w+), (&?)(\w+)\))\s+in\s+((\w+(?:\.\w+)*)\s*\.iter\(\)\s*\.enumerate\(\)(?:\s*\.skip\((\w+)\))?)\s*\{")
     for kw, ks, lo, lc in loops:
         if kw != "for":
             continue
@@ -826,7 +828,7 @@ def gen_fn(d, strip_paths, mode="verify", contract_text=None, vacuity=False):
         if mm and mm.end() - 1 == lo:
             idx, amp, x, place = mm.group(2), mm.group(3), mm.group(4), mm.group(6)
             edits.append(Edit(mm.start(1), text[mm.start(1) : mm.end(1)], idx, "norm:N15"))
-            edits.append(Edit(mm.start(5), text[mm.start(5) : mm.end(5)], "0.." + place + ".len()", "norm:N15"))
+            edits.append(Edit(mm.start(5), text[mm.start(5) : mm.end(5)], (mm.group(7) or "0") + ".." + place + ".len()", "norm:N15"))
             edits.append(Edit(lo + 1, "", " let " + x + " = " + ("" if amp else "&") + place + "[" + idx + "];", "norm:N15"))
 
     # N16: a reference pattern inside `if let Some(&x) = E {` (Verus has no ref patterns):
